@@ -1257,11 +1257,7 @@ static int parse_single_cert(psPool_t *pool, const unsigned char **pp,
     case OID_SHA1_ECDSA_SIG:
 #   endif
 #   ifndef ENABLE_SHA1_SIGNED_CERTS
-        if (cert->subject.commonNameLen == cert->issuer.commonNameLen &&
-                cert->subject.commonNameLen > 0 &&
-                Memcmp(cert->subject.commonName,
-                        cert->issuer.commonName,
-                        cert->subject.commonNameLen))
+        if (Memcmp(cert->subject.hash, cert->issuer.hash, SHA1_HASH_SIZE) != 0)
         {
             /* Without ENABLE_SHA1_SIGNED_CERTS, SHA-1 based signatures
                are only allowed for root certs. TODO: improve the above
